@@ -197,6 +197,28 @@ pub struct IdCase {
 
 pub struct EvalIds;
 
+/// An evaluator that assigns a constant without calling the objective function.
+struct Surrogate;
+impl mahf::problems::Evaluate for Surrogate {
+    type Problem = crate::tw::problems::RealP;
+    fn evaluate(&mut self, _problem: &Self::Problem, _state: &mut mahf::State<Self::Problem>, individuals: &mut [mahf::Individual<Self::Problem>]) {
+        for i in individuals {
+            i.set_objective(mahf::SingleObjective::try_from(12345.0).unwrap());
+        }
+    }
+}
+
+fn surrogate_init<I: mahf::identifier::Identifier>(state: &mut mahf::State<crate::tw::problems::RealP>) -> mahf::ExecResult<()> {
+    state.insert_evaluator_as::<I>(Surrogate);
+    crate::tw::observer::SURROGATE_SCOPE.with(|f| f.set(true));
+    Ok(())
+}
+
+fn surrogate_merge(_outer: &mut mahf::State<crate::tw::problems::RealP>, _inner: mahf::State<crate::tw::problems::RealP>) -> mahf::ExecResult<()> {
+    crate::tw::observer::SURROGATE_SCOPE.with(|f| f.set(false));
+    Ok(())
+}
+
 fn id_config<I: mahf::identifier::Identifier>(c: &IdCase, cond: Box<dyn mahf::Condition<crate::tw::problems::RealP>>) -> mahf::Configuration<crate::tw::problems::RealP> {
     use mahf::components::{boundary, initialization, mutation};
     mahf::Configuration::builder()
@@ -206,6 +228,12 @@ fn id_config<I: mahf::identifier::Identifier>(c: &IdCase, cond: Box<dyn mahf::Co
             match c.placement {
                 1 => b.if_else_(mahf::conditions::RandomChance::new(0.0), |x| x, |x| x.evaluate_with::<I>()),
                 2 => b.if_(mahf::conditions::RandomChance::new(1.0), |x| x.evaluate_with::<I>()),
+                // a scope whose state-init hook registers a surrogate evaluator under the same
+                // identifier for the scope's own evaluation; the evaluation after the scope has
+                // to use the evaluator registered by the caller again
+                3 => b
+                    .do_(mahf::components::Scope::new_with(surrogate_init::<I>, mahf::Configuration::builder().evaluate_with::<I>().build_component(), surrogate_merge))
+                    .evaluate_with::<I>(),
                 _ => b.evaluate_with::<I>(),
             }
             .update_best_individual()
@@ -226,7 +254,7 @@ impl World for EvalIds {
                 registered.push(id);
             }
         }
-        IdCase { requested: g.below(3) as u8, registered, population: g.below(6) as u32, iterations: g.below(5) as u32, seed: g.u64(), problem: crate::tw::problems::gen_real(&mut g, false, 3), placement: g.below(3) as u8 }
+        IdCase { requested: g.below(3) as u8, registered, population: g.below(6) as u32, iterations: g.below(5) as u32, seed: g.u64(), problem: crate::tw::problems::gen_real(&mut g, false, 3), placement: g.below(4) as u8 }
     }
     fn execute(&self, c: &IdCase) -> Outcome<IdCase> {
         use crate::tw::problems::*;
@@ -267,7 +295,9 @@ impl World for EvalIds {
             }
         }
         state.insert(mahf::verif::ObserverSlot::new(crate::tw::observer::Obs::<RealP>::new(tcase, data.clone())));
+        crate::tw::observer::SURROGATE_SCOPE.with(|f| f.set(false));
         let r = guarded(|| config.run(&problem, &mut state));
+        crate::tw::observer::SURROGATE_SCOPE.with(|f| f.set(false));
         let d = std::mem::take(&mut *data.lock().unwrap());
         out.steps = d.steps + problem.instr.n_calls() as u64;
         let present = c.registered.contains(&c.requested);
